@@ -668,7 +668,14 @@ impl<SE: extensions::ShellExtensions> ExecuteInPipeline<SE> for ast::Command {
                 // Set up any additional redirects.
                 if let Some(redirects) = redirects {
                     for redirect in &redirects.0 {
-                        setup_redirect(&mut pipeline_context.shell, &mut params, redirect).await?;
+                        // A failing redirection fails this command only (status 1); it must not
+                        // abort the commands that follow it.
+                        if let Err(e) =
+                            setup_redirect(&mut pipeline_context.shell, &mut params, redirect).await
+                        {
+                            let _ = writeln!(params.stderr(&pipeline_context.shell), "error: {e}");
+                            return Ok(ExecutionResult::general_error().into());
+                        }
                     }
                 }
 
